@@ -109,6 +109,7 @@ DEFAULT_PROFILE: dict[str, Any] = {
     "multipart_const": True,        # was a C06 crash (fixed); switch kept for the regression replay
     "prefix_items": False,          # tuple-like arrays written with 3.1 prefixItems (+ items)
     "quote_enum_values": False,     # string enum values containing quote characters, braces, backticks
+    "multipart_models": False,      # multipart parts that are models / unions with a model (sent as JSON parts)
     "const_everywhere": False,      # const schemas also as parameters, bodies, responses, array items and union members
 }
 
@@ -598,14 +599,14 @@ def body_ir(draw, prof, comp_names, obj_names):
         elif kd == "form":
             content.append(["application/x-www-form-urlencoded", draw(flat_object(prof))])
         elif kd == "multipart":
-            content.append(["multipart/form-data", draw(flat_object(prof, files=True))])
+            content.append(["multipart/form-data", draw(flat_object(prof, files=True, obj_names=obj_names))])
         else:
             content.append(["application/octet-stream", {"k": "binary"}])
     return {"required": True, "content": content}
 
 
 @st.composite
-def flat_object(draw, prof, files=False):
+def flat_object(draw, prof, files=False, obj_names=()):
     n = draw(st.integers(1, 3))
     names = draw(safe_names(n))
     props = []
@@ -615,7 +616,13 @@ def flat_object(draw, prof, files=False):
             kinds += ["binary", "binary"]
             if prof.get("multipart_const"):
                 kinds.append("const")
+            if prof.get("multipart_models") and obj_names:
+                kinds += ["model", "model_or_int"]   # a part that is a JSON-encoded model (alone / as one alternative of a union)
         kd = draw(st.sampled_from(kinds))
+        if kd in ("model", "model_or_int"):
+            ref = {"k": "ref", "name": draw(st.sampled_from(sorted(obj_names)))}
+            props.append([nm, ref if kd == "model" else {"k": "union", "members": [ref, {"k": "int"}], "how": "oneOf"}, draw(st.booleans())])
+            continue
         props.append([nm, {"k": "const", "value": "fixed"} if kd == "const" else {"k": kd}, draw(st.booleans())])
     return {"k": "object", "props": props, "addl": False, "allOf": []}
 
